@@ -930,7 +930,7 @@ pub open spec fn shows(r: ProposalResponse<Empty>, id: u64, p: Proposal, b: &Blo
 @fn contracts/cw3-fixed-multisig/src/contract.rs map_proposal [closures: 1]
 @requires
     item is Ok ==> prop_wf(item->Ok_0.1)
-@ensures C20.map_proposal C03
+@ensures C20.map_proposal C03 C05
     match item { Ok((id, p)) => r is Ok && shows(r->Ok_0, id, p, block), Err(_) => r is Err }
 @closure 1 C20.map_proposal_closure
     (res: ProposalResponse<Empty>)
@@ -970,7 +970,7 @@ pub proof fn lemma_listed_wf(s: Raw)
 @fn contracts/cw3-fixed-multisig/src/contract.rs list_proposals [closures: 1]
 @requires
     inv(deps.storage.view())
-@ensures C20.list_proposals_page C03
+@ensures C20.list_proposals_page C03 C05
     r is Ok ==> ({
         let pg = page(listing(deps.storage.view(), "proposals"@, Seq::<u8>::empty(), false), u64_cursor(start_after), limit);
         r->Ok_0.proposals@.len() == pg.len() && forall|i: int| 0 <= i < pg.len() ==> u64_kb((#[trigger] r->Ok_0.proposals@[i]).id) == pg[i].0
@@ -997,7 +997,7 @@ pub proof fn lemma_listed_wf(s: Raw)
 @fn contracts/cw3-fixed-multisig/src/contract.rs reverse_proposals [closures: 1]
 @requires
     inv(deps.storage.view())
-@ensures C20.reverse_proposals_page C03
+@ensures C20.reverse_proposals_page C03 C05
     r is Ok ==> ({
         let pg = page_desc(listing(deps.storage.view(), "proposals"@, Seq::<u8>::empty(), false), u64_cursor(start_before), limit);
         r->Ok_0.proposals@.len() == pg.len() && forall|i: int| 0 <= i < pg.len() ==> u64_kb((#[trigger] r->Ok_0.proposals@[i]).id) == pg[i].0
@@ -1022,7 +1022,7 @@ pub proof fn lemma_listed_wf(s: Raw)
 @end
 
 @fn contracts/cw3-fixed-multisig/src/contract.rs list_votes [closures: 3]
-@ensures C20.list_votes_page
+@ensures C20.list_votes_page C03 C06
     r is Ok ==> ({
         let pg = page(listing(deps.storage.view(), "votes"@, u64_kb(proposal_id), true), str_cursor(start_after), limit);
         r->Ok_0.votes@.len() == pg.len() && forall|i: int| 0 <= i < pg.len() ==> utf8((#[trigger] r->Ok_0.votes@[i]).voter@) == pg[i].0
@@ -1049,7 +1049,7 @@ pub proof fn lemma_listed_wf(s: Raw)
 @end
 
 @fn contracts/cw3-fixed-multisig/src/contract.rs list_voters [closures: 3]
-@ensures C20.list_voters_page
+@ensures C20.list_voters_page C06
     r is Ok ==> ({
         let pg = page(listing(deps.storage.view(), "voters"@, Seq::<u8>::empty(), false), str_cursor(start_after), limit);
         r->Ok_0.voters@.len() == pg.len() && forall|i: int| 0 <= i < pg.len() ==> utf8((#[trigger] r->Ok_0.voters@[i]).addr@) == pg[i].0
